@@ -49,7 +49,7 @@ def C06(ctx):
     ctx.run(cases, nontrivial=miss, runtime=False)
     ctx.rules.append('family X: a needed type missing behind a binding (directly and two levels down), behind a "*" struct field carrying a foreign struct tag, '
                      'in the first / second of two injector files of one package; family B/S near misses (no binding for an interface, *F from a value struct)')
-    ctx.run(ctx.export('FamilyX(p, {"star-foreign-tag-missing", "star-foreign-tag-ok", "two-files-first-missing", "two-files-second-missing", "two-files-ok", "missing-behind-bind", "missing-behind-bind-2", "alias-satisfies", "defined-type-does-not-satisfy", "pointer-does-not-satisfy-value", "value-does-not-satisfy-pointer", "multi-name-var-sets-missing"})'), nontrivial=miss, runtime=False, check=True)
+    ctx.run(ctx.export('FamilyX(p, {"star-foreign-tag-missing", "star-foreign-tag-ok", "two-files-first-missing", "two-files-second-missing", "two-files-ok", "missing-behind-bind", "missing-behind-bind-2", "alias-satisfies", "defined-type-does-not-satisfy", "pointer-does-not-satisfy-value", "value-does-not-satisfy-pointer", "multi-name-var-sets-missing", "missing-under-fieldsof-parent"})'), nontrivial=miss, runtime=False, check=True)
     near = [c for c in ctx.export('FamilyB(p)') + ctx.export('FamilyS(p)') if miss(c)]
     ctx.run(near, nontrivial=miss, runtime=False)
     if not ctx.quick:
@@ -113,7 +113,7 @@ def C02(ctx):
     more = [c for c in more if verdict(c) == 'yes']
     if ctx.quick:
         more = ctx.sample(more, 500)
-    more += ctx.export('FamilyX(p, {"multi-name-var-sets", "arg-returned-through-bind", "arg-returned-directly", "two-files-ok", "star-foreign-tag-ok", "two-unnamed-values"})')
+    more += ctx.export('FamilyX(p, {"multi-name-var-sets", "arg-returned-through-bind", "arg-returned-directly", "two-files-ok", "star-foreign-tag-ok", "two-unnamed-values", "struct-fields-from-params-crossed"})')
     ctx.design_inject(cases + more, maxcalls=2, label='families G R B S M X ')
     ctx.design_analyze(cases + more, limit=400 if ctx.quick else 2500, label='families G R B S M X ', free_roots=False)
     ctx.run(only_success(more), nontrivial=nt, runtime=True, switches=W_ONLY)
@@ -207,7 +207,7 @@ def C08(ctx):
                      'plus every program of family G passed directly; non-trivial = WireSem: UnusedDirect # {} or an indirectly used item; '
                      'judge: unused => rejected with an unused diagnostic and no output; contributing => accepted; partially used FieldsOf lists are free')
     nt = lambda c: 'unused' in reasons(c) or c['key'].startswith('U/indirect')
-    ucases = ctx.export('FamilyU(p)')
+    ucases = ctx.export('FamilyU(p)') + ctx.export('FamilyX(p, {"two-fieldsof-second-unused", "set-used-by-first-injector-only", "two-fieldsof-items", "bind-after-concrete"})')
     ctx.design_analyze(ucases, label='family U ')
     ctx.run(ucases, nontrivial=nt, runtime=True, switches=W_ONLY)
     g = [c for c in ctx.export(G(3, 'all', ('dir',))) if 'unused' in reasons(c) or verdict(c) == 'yes']
@@ -275,7 +275,7 @@ def C12(ctx):
                      'asked for as S1 and *S1; wire.FieldsOf over S1 / *S1 provided by function / parameter / struct provider for subsets of {A,B,c} consumed by value or as pointer into the struct; '
                      'non-trivial = every case; judge: rejected iff a name is unknown/prevented (exact match); at run time exactly the selected fields carry the value of the source of their type, '
                      'all others zero; F is the field of the provided struct and *F aliases it (pointer ordinals)')
-    cases = ctx.export('FamilyS(p)')
+    cases = ctx.export('FamilyS(p)') + ctx.export('FamilyX(p, {"struct-fields-from-params-crossed", "two-fieldsof-items", "foreign-struct-exported-name"})')
     ctx.res.cov['exhaustive'] = True
     ctx.design_inject(cases, maxcalls=2, label='family S ')
     ctx.run(cases, runtime=True, switches=W_ONLY)
